@@ -67,7 +67,10 @@ func genC16(seed uint64, tier string, prop string) Case {
 		for s := 0; s < steps; s++ {
 			w := waits[r.intn(len(waits))]
 			sw := int64(r.intn(int(nsw)))
-			switch r.pick(10, 4, 2, 1, 2) {
+			switch r.pick(10, 4, 2, 1, 2, 3) {
+			case 5:
+				// write a key again that was removed earlier in this run (a new life of the same key)
+				c.Ops = append(c.Ops, Op{C: cl, K: "reset", A: []int64{w, sw, int64(r.intn(8))}})
 			case 0:
 				c.Ops = append(c.Ops, Op{C: cl, K: "set", A: []int64{w, sw}})
 			case 1:
@@ -103,6 +106,7 @@ func runC16(t *testing.T, c Case) (res Result) {
 	swamps := []string{"verif/life/one", "verif/life/two"}
 	var evs []lifeEv
 	var written []string // keys in order of creation per run (shared knowledge among clients)
+	var removedKeys []string
 	var v *Result
 	hungRPC := ""
 	var disk *simdisk.Disk
@@ -158,10 +162,23 @@ func runC16(t *testing.T, c Case) (res Result) {
 					done := false
 					var rid int32
 					switch op.K {
-					case "set":
+					case "set", "reset":
 						n++
 						e.key = fmt.Sprintf("c%d-%d", cl, n)
-						val := e.key
+						if op.K == "reset" {
+							var cands []string
+							for _, k := range removedKeys {
+								if strings.HasPrefix(k, sw+"|") {
+									cands = append(cands, strings.TrimPrefix(k, sw+"|"))
+								}
+							}
+							if len(cands) == 0 {
+								continue
+							}
+							e.key = cands[int(op.A[2])%len(cands)]
+							e.kind = "set"
+						}
+						val := fmt.Sprintf("%s#%d", e.key, n)
 						e.call = simrt.EventSeq()
 						rid = simrt.GoID(func() {
 							resp, err := srv.gw.Set(ctxBg, &hydrapb.SetRequest{Swamps: []*hydrapb.SwampRequest{{IslandID: 1, SwampName: sw, CreateIfNotExist: true, Overwrite: true,
@@ -226,8 +243,11 @@ func runC16(t *testing.T, c Case) (res Result) {
 						return
 					}
 					e.ret = simrt.EventSeq()
-					if op.K == "set" && e.acked {
+					if (op.K == "set" || op.K == "reset") && e.acked {
 						written = append(written, sw+"|"+e.key)
+					}
+					if (op.K == "del" || op.K == "shift") && e.acked && e.removed {
+						removedKeys = append(removedKeys, sw+"|"+e.key)
 					}
 					if op.K != "get" {
 						evs = append(evs, e)
